@@ -146,6 +146,8 @@ def step_set(ctx, data, doc_text, segs, value, prefix="set", history=None):
         return False
     targets = [E.own_loc(data, p.ord) for p in res]
     if any(t is None for t in targets):
+        if len(res) == 1 and value is not None:
+            return step_set_inherited(ctx, data, doc_text, segs, value, res[0], prefix, history)
         ctx.count("abstain_target_inherited_through_merge_key")
         return False
     locs = set(targets)
@@ -206,6 +208,64 @@ def step_set(ctx, data, doc_text, segs, value, prefix="set", history=None):
         mech = classify_set_diff(None, img0, expected, actual, sorted(locs), value)
         ctx.violation(prefix + "/" + mech, {"case": case, "summary": "differs from model at %r" % (
             E.diff(expected, actual)[:3],)})
+    reload_check(ctx, data, case, prefix)
+    return True
+
+
+def step_set_inherited(ctx, data, doc_text, segs, value, pos, prefix, history):
+    """The one matched scalar is a key its mapping only INHERITS through `<<`: after the set the path must resolve to the
+    new value (an override in that mapping - or, for an anchored scalar, a change of the shared node), the set must not
+    be a silent no-op, and nothing but that mapping / that shared node may change."""
+    try:
+        ptext = gp.render(segs, ".")
+    except ValueError:
+        return False
+    if ptext.startswith("/") or pos.kind != "k" or any(sg[0] not in ("KEY", "INDEX") for sg in segs):
+        ctx.count("abstain_target_inherited_through_merge_key")
+        return False
+    holder_loc = E.own_loc(data, pos.ord[:-1])
+    if holder_loc is None:
+        ctx.count("abstain_target_inherited_through_merge_key")
+        return False
+    case = {"doc": doc_text, "path": ptext, "segs": segs, "value": repr(value), "history": list(history or []),
+            "state_before": yp.dump(data) if history else None}
+    img0 = E.image(data)
+    anchored = yp.anchor_of(pos.node) is not None
+    pos_src_locs = sorted(loc for (loc, n, _p, _r) in E.positions(data) if n is pos.node and loc)
+    ctx.evaluations += 1
+    ctx.count("set_steps")
+    ctx.count("set_inherited_key_steps")
+    try:
+        Processor(LOG, data).set_value(ptext, value, mustexist=True)
+    except YAMLPathException as e:
+        ctx.violation(prefix + "/refused/%s" % type(e).__name__, {"case": case, "summary": str(e)[:150]})
+        return True
+    except Exception as e:
+        ctx.violation(prefix + "/crash/%s@%s" % (type(e).__name__, where(e)), {"case": case, "summary": repr(e)[:150]})
+        return True
+    ctx.mark_nontrivial([doc_text, ptext, repr(value), "inherited"])
+    try:
+        got = list(Processor(LOG, data).get_nodes(ptext, mustexist=True))
+    except Exception:
+        got = []
+    if len(got) != 1 or list(yp.scalar_plain(got[0].node)) != list(yp.scalar_plain(value)):
+        ctx.violation(prefix + "/inherited-key/path-does-not-hold-the-value", {"case": case, "summary": "after the set the path gives %r" % (
+            [repr(g.node) for g in got],)})
+        return True
+    if not anchored:
+        # two faithful outcomes: the inheriting mapping gets its own override (appended to its own keys), or the shared
+        # node itself - which lives in the merge source - takes the value (ruamel's scalar wrappers are replaced wherever
+        # the very same object is held); anything else changed is a bystander
+        import copy
+        actual = E.image(data)
+        exp_b = copy.deepcopy(img0)
+        E.get(exp_b, holder_loc)["items"].append([E.key_image(pos.ref), E.value_image(value)])
+        src_locs = pos_src_locs
+        exp_a = E.apply_set(img0, src_locs, value) if src_locs else None
+        if actual != exp_b and actual != exp_a:
+            ctx.violation(prefix + "/inherited-key/bystander-changed", {"case": case, "summary": "neither 'own override appended' (%r) nor "
+                          "'shared source node updated' (%r)" % (E.diff(exp_b, actual)[:2], E.diff(exp_a, actual)[:2] if exp_a else None)})
+            return True
     reload_check(ctx, data, case, prefix)
     return True
 
